@@ -21,7 +21,7 @@ RULE = ("Builder geometry (address width 1-8, data width 1-64, granularity a div
         "Distinct = canonical JSON.")
 BUDGET = {"quick": (16, 500), "thorough": (16, 15000)}
 ESSENTIAL = ["layout_ok", "layout_refused_overlap", "layout_refused_overflow", "layout_refused_name",
-             "explicit_offset", "explicit_offset_near_end", "granularity!=8", "scope_cluster", "scope_index", "failed_op_in_scope_caught_outside",
+             "explicit_offset", "explicit_offset_near_end", "offset_beyond_2**53", "granularity!=8", "scope_cluster", "scope_index", "failed_op_in_scope_caught_outside",
              "failed_op_in_scope_caught_inside", "natural_alignment_gap", "frozen_add_refused", "bad_geometry_refused"]
 ASSUMPTIONS = [
     "a zero-width register occupies one address (a memory-map range is never empty)",
@@ -37,6 +37,7 @@ def _add():
                      gens.weighted((5, st.none()), (1, st.integers(0, 40)),
                                              (3, st.integers(0, 12).map(lambda k: ["mult", k])),
                                              (2, st.integers(1, 9).map(lambda d: ["end", d])),
+                                             (1, st.integers(0, 40).map(lambda k: ["big", k])),
                                              (1, st.sampled_from([-1, "x", 1.5])))).map(list)
 
 
@@ -61,7 +62,7 @@ def _spec(draw, tier):
         g = draw(st.sampled_from([8, 3, 5, 16, 0]))
     else:
         g = draw(st.sampled_from(divs))
-    aw = draw(st.sampled_from([1, 2, 3, 3, 4, 4, 5, 5, 6, 6, 8, 8, 8])) if draw(st.integers(0, 19)) else 0
+    aw = draw(st.sampled_from([1, 2, 3, 3, 4, 4, 5, 5, 6, 6, 8, 8, 8, 56, 60])) if draw(st.integers(0, 19)) else 0
     return {"aw": aw, "dw": dw, "g": g, "ops": draw(_ops())}
 
 
@@ -114,7 +115,12 @@ def check(spec, stats):
                 w = width_of(wspec)
                 if isinstance(off, list):
                     # ["mult", k]: bus address k; ["end", d]: d addresses before the end of the address space
-                    off = off[1] * ratio if off[0] == "mult" else max(0, (1 << aw) - off[1]) * ratio
+                    if off[0] == "big":
+                        # beyond 2**53 (only meaningful in a huge address space; elsewhere it overflows and must be refused later)
+                        off = (min(1 << 54, (1 << aw) // 2) + off[1]) * ratio
+                        stats.label("offset_beyond_2**53", aw >= 56)
+                    else:
+                        off = off[1] * ratio if off[0] == "mult" else max(0, (1 << aw) - off[1]) * ratio
                     if op[3][0] == "end":
                         stats.label("explicit_offset_near_end")
                 reg = csr.Register(csr.Field(action.RW, w), access="rw")
